@@ -357,6 +357,22 @@ C13RespCauses(n, r) ==
         ELSE {})
 
 ---------------------------------------------------------------------------
+\* the session issued by an authorize answer, if any
+IssuedCookie(r) ==
+  LET own == SelectSeq(r.setCookie, LAMBDA ck : ck.name = ("own:" \o r.f) /\ ~ck.deleted)
+  IN IF Outcome(r) = "authorize" /\ Len(own) > 0 THEN own[Len(own)].sid ELSE "none"
+
+(* C06 -- the values of a login are not those of any other login, nor functions of one another *)
+C06RespCauses(n, r) ==
+  IF Outcome(r) # "authorize" \/ ~(BaseParams \subseteq DOMAIN r.loc.params) THEN {}
+  ELSE LET p == r.loc.params
+           st == p.state[1]  no == p.nonce[1]  ch == p.code_challenge[1]
+           old == {logins[s] : s \in DOMAIN logins}
+       IN (IF \E o \in old : o.state = st THEN {"state-reused-from-an-earlier-login"} ELSE {})
+          \cup (IF \E o \in old : o.nonce = no THEN {"nonce-reused-from-an-earlier-login"} ELSE {})
+          \cup (IF \E o \in old : o.challenge = ch THEN {"pkce-challenge-reused-from-an-earlier-login"} ELSE {})
+          \cup (IF IssuedCookie(r) \in DOMAIN logins THEN {"session-id-reused-from-an-earlier-login"} ELSE {})
+
 (* C14 -- no credential reaches the user agent *)
 C14RespCauses(n, r) ==
   (IF r.leaks # <<>> THEN {"leak:" \o r.leaks[1]} ELSE {})
@@ -397,6 +413,7 @@ RespViol(n, r) ==
         ELSE {})
   \cup Tag("C02", "ForwardedEqBound", C02RespCauses(n, r), n)
   \cup Tag("C05", "CookieAndSessionId", C05RespCauses(n, r), n)
+  \cup Tag("C06", "ValuesFresh", C06RespCauses(n, r), n)
   \cup Tag("C09", "LogoutFinal", C09RespCauses(n, r), n)
   \cup Tag("C10", "NeverHonouredLate", C10RespCauses(n, r), n)
   \cup Tag("C11", "RefreshMerge", C11RespCauses(n, r), n)
@@ -493,11 +510,6 @@ JwksEv ==
   /\ E.ev = "jwks"
   /\ chk' = Note(E.n)
   /\ UNCHANGED <<now, sc, flt, logins, presented, consumed, dead, codes, idtok, rtl, latest, lastUse, stored, gone, bound, attok, br, viol, drift, fired>>
-
-\* the session issued by an authorize answer, if any
-IssuedCookie(r) ==
-  LET own == SelectSeq(r.setCookie, LAMBDA ck : ck.name = ("own:" \o r.f) /\ ~ck.deleted)
-  IN IF Outcome(r) = "authorize" /\ Len(own) > 0 THEN own[Len(own)].sid ELSE "none"
 
 RespEv ==
   /\ E.ev = "resp"
